@@ -44,7 +44,7 @@ P = {
  "C12": ("Ground queries: the 19 compiled constants and the 19 FloatConst accessors equal (RN(c), RN(c-RN(c))) computed at check time by mpmath at 400 bits; MAX/MIN valid and bounding every valid x (one query over all valid x); MIN_POSITIVE, NAN != NAN, infinities invalid. to_degrees/to_radians: for every x exactly one multiplication by the mpmath-rounded 180/pi resp. pi/180 whose result is returned unchanged (recording stub).",
          "The 6u^2 accuracy of to_degrees/to_radians then follows on paper from C04's 5u^2 plus the constant's 2^-107 error; the direct query on the real multiplier is decided in the thorough tier only for operands with 8-12 free fraction bits per word (the dense 106-bit constant makes wider operands time out). The constant comparison is constant folding (degenerate solver step) - its value is the independent mpmath oracle. ",
          "ground comparison with an independent oracle; recording stub"),
- "C13": ("Decided: powi never panics for ANY x and ANY i32 n (loop fully unwound, multiplications havoc'd); powi(x,0), powi(x,1); powi(x,-n) == powi(x,n).recip() for 0<n<=255 with multiplication and recip as UFs; sign of powi for negative x on a cell (n<=3) and powi(-1, n) at the extreme exponents i32::MIN, i32::MIN+1, i32::MAX (pinned ground, real code); sqrt of every valid negative value invalid, sqrt(0)=0; cbrt(0)=0 and two exact cubes as pinned ground queries.",
+ "C13": ("Decided: powi never panics for ANY x and ANY i32 n (loop fully unwound, multiplications havoc'd); powi(x,0), powi(x,1); powi(x,-n) == powi(x,n).recip() for 0<n<=255 with multiplication and recip as UFs; sign of powi for negative x on a cell (n<=3) and powi(-1, n) at the extreme exponents i32::MIN, i32::MIN+1, i32::MAX (pinned ground, real code); sqrt of every valid negative value invalid, sqrt(0)=0; cbrt(0)=0 as pinned ground query, cbrt(8), cbrt(-27) (thorough); sqrt within 32*2^-106 of the mpmath value at sampled pinned arguments (a SAMPLE of the accuracy clause, reported as such).",
          "OUT OF CLAIM: the accuracy constants of sqrt (attempted at M=12..16 in thorough through the soft libm::sqrt), cbrt, hypot and powi - n-th power / cube oracles on symbolic 106-bit values are beyond the back end. A perturbed Newton step is therefore not detected except at the ground points. ",
          "havoc/UF stubs for control logic; pinned ground queries"),
  "C14": ("Decided: exp, exp2, exp_m1 never panic for ANY valid argument (double-double operators havoc'd, real argument reduction, rounding, table indexing, recursion); powf's own logic never panics; range switches of exp/exp2 for all valid x; exp(0)=1, exp_m1(0)=0; exp2(k)=2^k for a sample of integers (pinned ground); powf logic for all valid x,y with exp/ln/mul as recording UFs (0^0, x^0, 0^y, negative base with integer / non-integer exponent, exp applied to y*ln|x|).",
